@@ -65,16 +65,24 @@ func absOf(b bool) Abs {
 type State struct {
 	facts map[string]Abs
 	ints  map[string]int64
+	ali   map[string]string // phi key -> key of the operand it took on this path
 	Ev    uint64
 	N     [4]int8
 	// bookkeeping for witnesses
-	parent *State
-	blk    *ssa.BasicBlock
-	note   string
+	parent   *State
+	blk      *ssa.BasicBlock
+	note     string
+	inRefine bool
 }
 
 func (s *State) clone() *State {
 	n := &State{facts: make(map[string]Abs, len(s.facts)+2), ints: make(map[string]int64, len(s.ints)+1), Ev: s.Ev, N: s.N}
+	if len(s.ali) > 0 {
+		n.ali = make(map[string]string, len(s.ali))
+		for k, v := range s.ali {
+			n.ali[k] = v
+		}
+	}
 	for k, v := range s.facts {
 		n.facts[k] = v
 	}
@@ -95,6 +103,9 @@ func (s *State) key() string {
 	}
 	for k, v := range s.ints {
 		ks = append(ks, k+"#"+strconv.FormatInt(v, 10))
+	}
+	for k, v := range s.ali {
+		ks = append(ks, k+"~"+v)
 	}
 	sort.Strings(ks)
 	return fmt.Sprintf("%x|%v|%s", s.Ev, s.N, strings.Join(ks, "&"))
@@ -139,11 +150,23 @@ type Explorer struct {
 	// explored path-insensitively, which keeps the state space small.
 	track    map[string]int
 	TrackAll bool
+	// liveness of fact keys: a fact is dropped on entering a block from which
+	// no instruction that could consult it is reachable.
+	keep     map[string]bool
+	liveAt   map[string][]bool
+	liveInit bool
+	Debug    bool
+	DbgKeys  map[int]map[string]int
+	byKey    map[string]ssa.Value
+	// AliasPhis: phis (of any type) for which the operand taken on the current
+	// path is remembered (st.ali), so rules can ask where a value came from.
+	AliasPhis map[*ssa.Phi]bool
+	byKeyPhi  map[string]*ssa.Phi
 }
 
 func NewExplorer(p *Prog, fn *ssa.Function, h Hooks) *Explorer {
 	x := &Explorer{P: p, Fn: fn, H: h, ids: map[ssa.Value]int{}, canon: map[ssa.Value]string{},
-		defs: map[*ssa.BasicBlock][]string{}, MaxStates: 400000, escAlloc: map[*ssa.Alloc]bool{}}
+		defs: map[*ssa.BasicBlock][]string{}, MaxStates: 400000, escAlloc: map[*ssa.Alloc]bool{}, byKey: map[string]ssa.Value{}}
 	x.mods = p.modInfo()
 	n := 0
 	for _, prm := range fn.Params {
@@ -212,8 +235,169 @@ func NewExplorer(p *Prog, fn *ssa.Function, h Hooks) *Explorer {
 	return x
 }
 
-// Track forces facts about v to be remembered on branches.
-func (x *Explorer) Track(v ssa.Value) { x.track[x.Canon(v)] += 2 }
+// Track forces facts about v to be remembered on branches and kept alive
+// everywhere (rules call it for values they Eval in hooks).
+func (x *Explorer) Track(v ssa.Value) {
+	for _, k := range x.evalKeys(v, 0) {
+		x.track[k] += 2
+		if x.keep == nil {
+			x.keep = map[string]bool{}
+		}
+		x.keep[k] = true
+	}
+}
+
+// evalKeys lists the fact keys Eval(v) may consult.
+func (x *Explorer) evalKeys(v ssa.Value, depth int) []string {
+	if depth > 10 {
+		return nil
+	}
+	if _, ok := v.(*ssa.Const); ok {
+		return nil
+	}
+	out := []string{x.Canon(v)}
+	switch v := v.(type) {
+	case *ssa.UnOp:
+		if v.Op == token.NOT {
+			out = append(out, x.evalKeys(v.X, depth+1)...)
+		}
+	case *ssa.BinOp:
+		switch v.Op {
+		case token.EQL, token.NEQ, token.LSS, token.LEQ, token.GTR, token.GEQ:
+			out = append(out, x.evalKeys(v.X, depth+1)...)
+			out = append(out, x.evalKeys(v.Y, depth+1)...)
+		}
+	case *ssa.ChangeType:
+		out = append(out, x.evalKeys(v.X, depth+1)...)
+	case *ssa.ChangeInterface:
+		out = append(out, x.evalKeys(v.X, depth+1)...)
+	}
+	return out
+}
+
+func (x *Explorer) initLiveness() {
+	x.liveInit = true
+	n := len(x.Fn.Blocks)
+	uses := map[string][]int{}
+	add := func(v ssa.Value, b int) {
+		for _, k := range x.evalKeys(v, 0) {
+			uses[k] = append(uses[k], b)
+		}
+	}
+	for _, b := range x.Fn.Blocks {
+		for _, in := range b.Instrs {
+			switch in := in.(type) {
+			case *ssa.If:
+				add(in.Cond, b.Index)
+			case *ssa.Store:
+				add(in.Val, b.Index)
+			}
+		}
+		for _, s := range b.Succs {
+			idx := -1
+			for i, p := range s.Preds {
+				if p == b {
+					idx = i
+				}
+			}
+			for _, in := range s.Instrs {
+				phi, ok := in.(*ssa.Phi)
+				if !ok {
+					break
+				}
+				if idx >= 0 {
+					add(phi.Edges[idx], b.Index)
+				}
+			}
+		}
+	}
+	preds := make([][]int, n)
+	for _, b := range x.Fn.Blocks {
+		for _, s := range b.Succs {
+			preds[s.Index] = append(preds[s.Index], b.Index)
+		}
+	}
+	// id -> defining block
+	defBlock := map[int]int{}
+	for v, id := range x.ids {
+		if in, ok := v.(ssa.Instruction); ok && in.Block() != nil {
+			defBlock[id] = in.Block().Index
+		}
+	}
+	x.liveAt = map[string][]bool{}
+	for k, us := range uses {
+		// blocks that (re)define a value mentioned in the key: the fact dies there
+		defs := map[int]bool{}
+		for i := 0; i < len(k); i++ {
+			if k[i] != '<' {
+				continue
+			}
+			j := strings.IndexByte(k[i:], '>')
+			if j < 0 {
+				break
+			}
+			if id, err := strconv.Atoi(k[i+1 : i+j]); err == nil {
+				if db, ok := defBlock[id]; ok {
+					defs[db] = true
+				}
+			}
+			i += j
+		}
+		liveIn := make([]bool, n)
+		var stack []int
+		for _, u := range us {
+			if !defs[u] && !liveIn[u] {
+				liveIn[u] = true
+				stack = append(stack, u)
+			} else if defs[u] {
+				// used after its definition inside u: not live on entry to u
+			}
+		}
+		for len(stack) > 0 {
+			c := stack[len(stack)-1]
+			stack = stack[:len(stack)-1]
+			for _, pb := range preds[c] {
+				if liveIn[pb] || defs[pb] {
+					continue
+				}
+				liveIn[pb] = true
+				stack = append(stack, pb)
+			}
+		}
+		x.liveAt[k] = liveIn
+	}
+}
+
+// pruneDead drops facts nobody can consult from block b on.
+func (x *Explorer) pruneDead(st *State, b *ssa.BasicBlock) {
+	for k := range st.facts {
+		if x.keep[k] {
+			continue
+		}
+		if l := x.liveAt[k]; l == nil || !l[b.Index] {
+			delete(st.facts, k)
+		}
+	}
+	for k := range st.ints {
+		if x.keep[k] {
+			continue
+		}
+		if l := x.liveAt[k]; l == nil || !l[b.Index] {
+			delete(st.ints, k)
+		}
+	}
+	for k := range st.ali {
+		if x.keep[k] {
+			continue
+		}
+		if v := x.byKeyPhi[k]; v != nil && x.AliasPhis[v] {
+			continue
+		}
+		if l := x.liveAt[k]; l == nil || !l[b.Index] {
+			delete(st.ali, k)
+		}
+	}
+}
 
 // assumeKeys lists the fact keys that assuming cond would set.
 func (x *Explorer) assumeKeys(v ssa.Value, depth int) []string {
@@ -576,6 +760,87 @@ func (x *Explorer) assume(st *State, v ssa.Value, want bool, depth int) {
 	if k := x.Canon(v); x.tracked(k) {
 		st.facts[k] = absOf(want)
 	}
+	if phi, ok := v.(*ssa.Phi); ok {
+		x.refinePhi(st, phi, absOf(want), depth)
+	}
+}
+
+// refinePhi propagates knowledge about a phi back to its operands: if all but
+// one distinct incoming value are state-independently known to differ from
+// the assumed outcome, the phi must have taken the remaining one.
+func (x *Explorer) refinePhi(st *State, phi *ssa.Phi, want Abs, depth int) {
+	if depth > 6 {
+		return
+	}
+	if ok, has := st.ali[x.Canon(phi)]; has {
+		if ov := x.byKey[ok]; ov != nil {
+			if isBool(ov.Type()) {
+				x.assume(st, ov, want == True, depth+1)
+			} else if nilable(ov.Type()) {
+				if x.tracked(ok) {
+					st.facts[ok] = want
+				}
+				if p2, isPhi := ov.(*ssa.Phi); isPhi {
+					x.refinePhi(st, p2, want, depth+1)
+				}
+			}
+			return
+		}
+	}
+	var cand ssa.Value
+	n := 0
+	seen := map[ssa.Value]bool{}
+	for _, e := range phi.Edges {
+		if seen[e] {
+			continue
+		}
+		seen[e] = true
+		if a := staticAbs(e); a != Unknown && a != want {
+			continue
+		}
+		cand = e
+		n++
+	}
+	if n != 1 || cand == nil {
+		return
+	}
+	if staticAbs(cand) != Unknown {
+		return
+	}
+	if isBool(cand.Type()) {
+		x.assume(st, cand, want == True, depth+1)
+	} else if nilable(cand.Type()) {
+		c := stripConv(cand)
+		if k := x.Canon(c); x.tracked(k) {
+			st.facts[k] = want
+		}
+		if p2, ok := c.(*ssa.Phi); ok {
+			x.refinePhi(st, p2, want, depth+1)
+		}
+	}
+}
+
+// staticAbs is the part of Eval that does not depend on the state.
+func staticAbs(v ssa.Value) Abs {
+	switch v := v.(type) {
+	case *ssa.Const:
+		if v.Value == nil {
+			if isBasic(v.Type()) {
+				return Unknown
+			}
+			return False
+		}
+		if v.Value.Kind() == constant.Bool {
+			return absOf(constant.BoolVal(v.Value))
+		}
+	case *ssa.MakeInterface, *ssa.Alloc, *ssa.FieldAddr, *ssa.IndexAddr, *ssa.MakeClosure, *ssa.MakeMap, *ssa.MakeChan, *ssa.MakeSlice, *ssa.Function, *ssa.Global:
+		return True
+	case *ssa.ChangeType:
+		return staticAbs(v.X)
+	case *ssa.ChangeInterface:
+		return staticAbs(v.X)
+	}
+	return Unknown
 }
 
 func (x *Explorer) setNil(st *State, v ssa.Value, isNil bool) {
@@ -593,6 +858,11 @@ func (x *Explorer) setNil(st *State, v ssa.Value, isNil bool) {
 	}
 	if k := x.Canon(v); x.tracked(k) {
 		st.facts[k] = absOf(!isNil)
+	}
+	if phi, ok := v.(*ssa.Phi); ok && !st.inRefine {
+		st.inRefine = true
+		x.refinePhi(st, phi, absOf(!isNil), 0)
+		st.inRefine = false
 	}
 }
 
@@ -613,6 +883,14 @@ func (st *State) kill(tokens []string) {
 		for _, t := range tokens {
 			if strings.Contains(k, t) {
 				delete(st.ints, k)
+				break
+			}
+		}
+	}
+	for k, v := range st.ali {
+		for _, t := range tokens {
+			if strings.Contains(k, t) || strings.Contains(v, t) {
+				delete(st.ali, k)
 				break
 			}
 		}
@@ -660,6 +938,9 @@ func (x *Explorer) Run(init *State) {
 }
 
 func (x *Explorer) RunFrom(start *ssa.BasicBlock, init *State) {
+	if !x.liveInit {
+		x.initLiveness()
+	}
 	visited := map[*ssa.BasicBlock]map[string]bool{}
 	work := []workItem{{start, init}}
 	for len(work) > 0 {
@@ -677,6 +958,23 @@ func (x *Explorer) RunFrom(start *ssa.BasicBlock, init *State) {
 			continue
 		}
 		visited[b][k] = true
+		if x.Debug {
+			if x.DbgKeys == nil {
+				x.DbgKeys = map[int]map[string]int{}
+			}
+			m := x.DbgKeys[b.Index]
+			if m == nil {
+				m = map[string]int{}
+				x.DbgKeys[b.Index] = m
+			}
+			m["#states"]++
+			for fk, fv := range st.facts {
+				m[fk+"="+strconv.Itoa(int(fv))]++
+			}
+			for fk := range st.ints {
+				m["int:"+fk]++
+			}
+		}
 		x.States++
 		if x.States > x.MaxStates {
 			x.Aborted = true
@@ -752,10 +1050,12 @@ func (x *Explorer) enter(st *State, from, to *ssa.BasicBlock) {
 		}
 	}
 	type upd struct {
-		phi  *ssa.Phi
-		a    Abs
-		i    int64
-		hasI bool
+		phi   *ssa.Phi
+		a     Abs
+		i     int64
+		hasI  bool
+		op    ssa.Value
+		force bool
 	}
 	var ups []upd
 	for _, in := range to.Instrs {
@@ -770,12 +1070,24 @@ func (x *Explorer) enter(st *State, from, to *ssa.BasicBlock) {
 		u := upd{phi: phi}
 		if isBool(phi.Type()) || nilable(phi.Type()) {
 			u.a = x.Eval(st, e)
+			if u.a == Unknown {
+				if _, isC := e.(*ssa.Const); !isC {
+					u.op = stripConv(e)
+				}
+			}
 		} else if k, ok := x.intOf(st, e); ok {
 			u.i, u.hasI = k, true
+		}
+		if x.AliasPhis[phi] && u.op == nil {
+			if _, isC := e.(*ssa.Const); !isC {
+				u.op = stripConv(e)
+				u.force = true
+			}
 		}
 		ups = append(ups, u)
 	}
 	st.kill(x.defs[to])
+	x.pruneDead(st, to)
 	for _, u := range ups {
 		k := x.Canon(u.phi)
 		if u.a != Unknown {
@@ -783,6 +1095,20 @@ func (x *Explorer) enter(st *State, from, to *ssa.BasicBlock) {
 		}
 		if u.hasI {
 			st.ints[k] = u.i
+		}
+		if u.op != nil && (u.force || x.tracked(k)) {
+			ok := x.Canon(u.op)
+			if ok != k {
+				if st.ali == nil {
+					st.ali = map[string]string{}
+				}
+				st.ali[k] = ok
+				x.byKey[ok] = u.op
+				if x.byKeyPhi == nil {
+					x.byKeyPhi = map[string]*ssa.Phi{}
+				}
+				x.byKeyPhi[k] = u.phi
+			}
 		}
 	}
 	if x.H.Edge != nil {
